@@ -90,10 +90,10 @@ func checkC06(c *Ctx) {
 		}
 	}
 	c.Sites = nRet
-	c.Floor("flow functions", len(fns), 60, "Value methods, Index/GetAttr/ApplyPath, traversal steps, decode methods, helpers")
-	c.Floor("flow Value methods", nValueMethods, 20, "18 hclsyntax + json + dynblock exprWrap + static exprs")
-	c.Floor("flow returns", nRet, 200, "returns of boundary functions")
-	c.Floor("flow sources", nSrc, 90, "108 operand sources on the pinned tree")
+	c.Floor("flow functions", len(fns), 50, "Value methods, Index/GetAttr/ApplyPath, traversal steps, decode methods, helpers")
+	c.Floor("flow Value methods", nValueMethods, 17, "18 hclsyntax + json + dynblock exprWrap + static exprs")
+	c.Floor("flow returns", nRet, 150, "returns of boundary functions")
+	c.Floor("flow sources", nSrc, 70, "108 operand sources on the pinned tree")
 	c06FieldRules(c)
 	c06BodyMarks(c)
 	c.NotCovered("marks lost inside go-cty or inside application functions")
